@@ -310,11 +310,16 @@ fn check(acc: &mut Acc, case: u64, sc: &Scenario, inj: &Injected, out: &Outcome,
                 } else {
                     acc.inc(if closed.is_empty() { "failure_surfaced_to_a_caller" } else { "failure_surfaced_as_closing_event" });
                 }
-            } else if cancelled_request_on_the_wire && matches!(inj, Injected::World(Fault::ReadErrAfter(_) | Fault::GarbageAt(..) | Fault::GarbageMuteAt(..) | Fault::WriteErrFrom(_))) {
+            } else if cancelled_request_on_the_wire
+                && calls.iter().filter(|c| c.cancelled.is_some()).count() == 1
+                && matches!(inj, Injected::World(Fault::ReadErrAfter(_) | Fault::GarbageAt(..) | Fault::GarbageMuteAt(..) | Fault::WriteErrFrom(_)))
+            {
                 // The caller whose REPLY failed had given up, so its error went nowhere. But these failures are
                 // persistent (every later read / write fails the same way, the malformed line stays at the head of the
                 // buffer), so the connection cannot end without failing again with nobody to take the error but the
-                // event stream. Only an end of stream can look clean the second time (cut on a line boundary).
+                // event stream. Only an end of stream can look clean the second time (cut on a line boundary). (Not judged
+                // when a SECOND caller gave up as well: the second failure may then happen in the noidle exchange made on
+                // its behalf and go to its dead responder - seen once in 199 540 fault sessions of the thorough tier.)
                 if !proto_err_call && closed.is_empty() {
                     viol(acc, "the connection failed persistently (not a clean close) while the caller in flight had given up; afterwards neither another caller received an error nor was a closing event emitted".into());
                     return;
